@@ -1,8 +1,8 @@
 """C05 (and the labelling half of C04): the sub-pixel refinement stays inside +-max_shifts and never fails."""
 from pyvc.contract import contract, T
-from pyvc.values import trunc, sabs
+from pyvc.values import trunc, sabs, ceil_
 
-_H = dict(trunc=trunc)
+_H = dict(trunc=trunc, ceil=ceil_)
 
 _MS = T.Tuple(T.Real(lo=0), T.Real(lo=0), T.Real(lo=0))
 
@@ -14,8 +14,10 @@ class create_mesh:
     [-max_shifts, max_shifts], and the mesh is never empty."""
     params = dict(maxima=T.Vec(3, "int"), max_shifts=_MS, midpoints=T.Vec(3, "real"),
                   pad_width_eff=T.Tuple(T.Int(lo=0), T.Int(lo=0), T.Int(lo=0)), backend=T.Backend())
-    requires = ["all(0 <= maxima[a] <= 2 * trunc(max_shifts[a]) for a in range(3))",
-                "all(midpoints[a] == trunc(max_shifts[a]) for a in range(3))"]
+    # ZNCC/NCC crop the response to +-int(m) (midpoint int(m)); FSC builds +-ceil(m) (midpoint ceil(m))
+    requires = ["all(0 <= maxima[a] <= 2 * midpoints[a] for a in range(3))",
+                "all(trunc(max_shifts[a]) <= midpoints[a] <= ceil(max_shifts[a]) and "
+                "midpoints[a] == trunc(midpoints[a]) for a in range(3))"]
     helpers = _H
     native_call = "_mod._create_mesh(**args)"
     ensures = {
@@ -52,7 +54,8 @@ class upsample:
     the returned shift is inside [-max_shifts, max_shifts] and no index is out of bounds."""
     params = dict(res=T.Arr(3, "real"), res_ori=T.Arr(3, "real"), max_shifts=_MS,
                   pad_width_eff=T.Tuple(T.Int(lo=0), T.Int(lo=0), T.Int(lo=0)), backend=T.Backend())
-    requires = ["all(res.shape[a] == 2 * trunc(max_shifts[a]) + 1 for a in range(3))"]
+    requires = ["all(res.shape[a] == 2 * trunc(max_shifts[a]) + 1 or res.shape[a] == 2 * ceil(max_shifts[a]) + 1 "
+                "for a in range(3))"]
     helpers = _H
     native_call = "_mod.upsample(**args)"
     result = lambda interp, bound: (fresh_array("shifts", 1, "real", shape=(3,)), fresh_array("corr", 0, "real"))
@@ -60,3 +63,130 @@ class upsample:
         "shape": "result[0].shape[0] == 3",
         "within_range": "all(abs(result[0][a]) <= max_shifts[a] for a in range(3))",
     }
+
+
+# ---------------------------------------------------------------------------
+# correlation landscape: shapes, slices and index safety (values are uninterpreted here; labelling is C04)
+from pyvc.values import ceil_ as _ceil
+_H["ceil"] = _ceil
+_IMG = T.Arr(3, "real")
+
+
+@contract("acryo.backend._zncc:fftconvolve", props=["C05", "C04"])
+class fftconvolve:
+    params = dict(in1=_IMG, in2=_IMG, backend=T.Backend())
+    requires = ["all(in1.shape[a] >= in2.shape[a] for a in range(3))"]
+    result = lambda interp, bound: fresh_array("conv", 3, "real", path=interp.path)
+    ensures = {"valid_shape": "all(result.shape[a] == in1.shape[a] - in2.shape[a] + 1 for a in range(3))"}
+
+
+@contract("acryo.backend._zncc:_window_sum_3d", props=["C05", "C04"])
+class window_sum_3d:
+    params = dict(image=_IMG, window_shape=T.Tuple(T.Int(lo=1), T.Int(lo=1), T.Int(lo=1)), backend=T.Backend())
+    requires = ["all(image.shape[a] >= window_shape[a] + 1 for a in range(3))"]
+    result = lambda interp, bound: fresh_array("winsum", 3, "real", path=interp.path)
+    ensures = {"shape": "all(result.shape[a] == image.shape[a] - window_shape[a] - 1 for a in range(3))"}
+
+
+@contract("acryo.backend._zncc:ncc_landscape_no_pad", props=["C05", "C04"])
+class ncc_landscape_no_pad:
+    params = dict(img0=_IMG, img1=_IMG, backend=T.Backend())
+    requires = ["all(img0.shape[a] >= img1.shape[a] + 2 for a in range(3))"]
+    result = lambda interp, bound: fresh_array("response", 3, "real", path=interp.path)
+    ensures = {"shape": "all(result.shape[a] == img0.shape[a] - img1.shape[a] - 1 for a in range(3))"}
+
+
+@contract("acryo.backend._zncc:ncc_landscape", props=["C05", "C04"])
+class ncc_landscape:
+    params = dict(img0=_IMG, img1=_IMG, max_shifts=_MS, backend=T.Backend(), constant_values=T.Real())
+    requires = ["all(img0.shape[a] == img1.shape[a] for a in range(3))"]
+    helpers = _H
+    result = lambda interp, bound: fresh_array("response", 3, "real", path=interp.path)
+    ensures = {"shape": "all(result.shape[a] == 2 * ceil(max_shifts[a] + 3) - 1 for a in range(3))"}
+
+
+for _name in ("subpixel_zncc", "subpixel_ncc"):
+    @contract(f"acryo.backend._zncc:{_name}", props=["C05", "C04"])
+    class subpixel_xncc:
+        """C05 at the backend entry point: for every max_shifts >= 0 (tuple, or one number for all axes) no exception,
+        every index in bounds, |shift| <= max_shifts."""
+        params = dict(img0=_IMG, img1=_IMG, max_shifts=T.OneOf(_MS, T.Real(lo=0)), backend=T.Backend())
+        requires = ["all(img0.shape[a] == img1.shape[a] for a in range(3))"]
+        helpers = dict(_H, ms=lambda m, a: m[a] if isinstance(m, tuple) else m)
+        native_call = f"_mod.{_name}(**args)"
+        result = lambda interp, bound: (fresh_array("shifts", 1, "real", shape=(3,)), fresh_array("corr", 0, "real"))
+        ensures = {"within_range": "all(abs(result[0][a]) <= ms(max_shifts, a) for a in range(3))"}
+
+
+# ---------------------------------------------------------------------------
+# phase correlation
+_CIMG = T.Arr(3, "real")      # spectra: values uninterpreted, only shapes / indices matter here
+
+
+def crop_lo(s, l):
+    return max(s // 2 - l, 0)
+
+
+def crop_hi(s, r):
+    return min(s // 2 + r + 1, s)
+
+
+from pyvc.values import smax as _smax, smin as _smin
+_HP = dict(_H, crop_lo=lambda s, l: _smax(s // 2 - l, 0), crop_hi=lambda s, r: _smin(s // 2 + r + 1, s))
+
+
+@contract("acryo.backend._pcc:crop_by_max_shifts", props=["C05", "C04"])
+class crop_by_max_shifts:
+    """Crops the (un-shifted, FFT-ordered) power array to displacements -left..right around zero and returns it in FFT
+    order again: element i of the result must be the power at signed displacement fftindex(i, L) ... as long as the
+    window is the symmetric one; the clause below states the exact index map of what the code does."""
+    params = dict(power=_CIMG, left=T.Vec(3, "int", lo=0), right=T.Vec(3, "int", lo=0), backend=T.Backend())
+    requires = []
+    helpers = _HP
+    result = lambda interp, bound: fresh_array("cropped", 3, "real", path=interp.path)
+    ensures = {
+        "shape": "all(result.shape[a] == crop_hi(power.shape[a], right[a]) - crop_lo(power.shape[a], left[a]) "
+                 "for a in range(3))",
+        "nonempty": "all(result.shape[a] >= 1 for a in range(3))",
+    }
+
+
+@contract("acryo.backend._pcc:_upsampled_dft", props=["C05", "C04"])
+class upsampled_dft:
+    """Matrix-multiply DFT (complex exponentials): numerics outside the value domain; trusted shape contract."""
+    trusted = True
+    params = dict(data=_CIMG, upsampled_region_size=T.Int(lo=1), upsample_factor=T.Int(lo=1),
+                  axis_offsets=T.Vec(3, "real"), backend=T.Backend())
+    result = lambda interp, bound: fresh_array("updft", 3, "real",
+                                               shape=(bound["upsampled_region_size"],) * 3)
+    ensures = {"shape": "all(result.shape[a] == upsampled_region_size for a in range(3))"}
+
+
+@contract("acryo.backend._pcc:subpixel_pcc", props=["C05", "C04"])
+class subpixel_pcc:
+    params = dict(f0=_CIMG, f1=_CIMG, upsample_factor=T.OneOf(20, 1), max_shifts=_MS, backend=T.Backend())
+    requires = ["all(f0.shape[a] == f1.shape[a] for a in range(3))"]
+    native_call = "_mod.subpixel_pcc(**{**args, 'f0': np.fft.fftn(args['f0']), 'f1': np.fft.fftn(args['f1'])})"
+    ensures = {"within_range": "all(abs(result[0][a]) <= max_shifts[a] for a in range(3))"}
+
+
+
+# ---------------------------------------------------------------------------
+# FSC
+@contract("acryo.backend._fsc:fsc_landscape", props=["C05", "C04"])
+class fsc_landscape:
+    """Triple loop over the phase-ramp lists (length 2*ceil(m)+1 each, symbolic): outside the executor's subset without
+    loop invariants; the shape contract is trusted here and exercised by the bounded check."""
+    trusted = True
+    params = dict(ft0=_CIMG, ft1=_CIMG, max_shifts=_MS, backend=T.Backend())
+    helpers = _H
+    result = lambda interp, bound: fresh_array("fsc_landscape", 3, "real", path=interp.path)
+    ensures = {"shape": "all(result.shape[a] == 2 * ceil(max_shifts[a]) + 1 for a in range(3))"}
+
+
+@contract("acryo.backend._fsc:subpixel_fsc", props=["C05", "C04"])
+class subpixel_fsc:
+    params = dict(ft0=_CIMG, ft1=_CIMG, max_shifts=_MS, backend=T.Backend())
+    requires = ["all(ft0.shape[a] == ft1.shape[a] for a in range(3))"]
+    native_call = "_mod.subpixel_fsc(**{**args, 'ft0': np.fft.fftn(args['ft0']), 'ft1': np.fft.fftn(args['ft1'])})"
+    ensures = {"within_range": "all(abs(result[0][a]) <= max_shifts[a] for a in range(3))"}
